@@ -187,6 +187,8 @@ def triage(vc, mod, report, args):
         r = solve.z3_check(hyps2, ob.goal, vc.z3_timeout_ms, ob.watch)
         if r.status == solve.PROVED:
             # which finding does the original model belong to: attribute to all applicable
+            ob.discharged_under_exclusion = [fid for fid, _ in applicable]
+            ob.exclusion_result = r
             for fid, _ in applicable:
                 only_known.setdefault(fid, []).append(ob)
         elif r.status == solve.REFUTED:
@@ -264,6 +266,10 @@ def write_evidence(vc, mod, report, args, seed, wall, code):
     st = vc.by_status() if all(o.result for o in vc.obligations) else None
     obl = [o for o in vc.obligations if o.kind != "cover"]
     proved = [o for o in obl if o.result and o.result.status == solve.PROVED]
+    # obligations that fail only on the inputs of a listed known finding are discharged under the recorded exclusion
+    # hypothesis (hyps and not known-finding-inputs => goal); they are counted, and listed separately
+    excl = [o for o in obl if getattr(o, "discharged_under_exclusion", None) and any(
+        line.startswith("KNOWN-FINDING") and any(f in line for f in o.discharged_under_exclusion) for line in report["known"])]
     backends = {}
     solver_s = 0.0
     for o in vc.obligations:
@@ -287,8 +293,10 @@ def write_evidence(vc, mod, report, args, seed, wall, code):
     level = getattr(mod, "LEVEL", "proof") if mod else "proof"
     cov = {
         "obligations": len(obl),
-        "discharged": len(proved),
-        "refuted": len([o for o in obl if o.result and o.result.status == solve.REFUTED]),
+        "discharged": len(proved) + len(excl),
+        "discharged_unconditionally": len(proved),
+        "discharged_under_known_finding_exclusion": len(excl),
+        "refuted": len([o for o in obl if o.result and o.result.status == solve.REFUTED]) - len(excl),
         "unknown": len([o for o in obl if o.result and o.result.status == solve.UNKNOWN]),
         "cover_queries": len(vc.obligations) - len(obl),
         "cover_satisfied": len(st["cover_ok"]) if st else 0,
